@@ -7,7 +7,7 @@
 //        cuts[0..n]   : n chunks [cuts[k], cuts[k+1]) expressed in 1/65536 of the dispatched length (monotone, cuts[0]=0, cuts[n]=65536)
 //        order[0..n-1]: permutation - execution order of the chunks
 //        tids[0..n-1] : worker id of each chunk (< nworkers)
-//        mode         : 0 = serial in the given order; 1 = concurrent, one OS thread per worker id
+//        mode         : 0 = serial in the given order; 1 = concurrent, one persistent OS thread per worker id
 //                       (chunks of one id run sequentially in the given order, as a real pool guarantees)
 //   vp_pool_stats(out[4])                     dispatch count, last length, chunks executed, elements executed
 #include "PyImathTask.h"
@@ -16,6 +16,9 @@
 #include <thread>
 #include <vector>
 #include <algorithm>
+#include <condition_variable>
+#include <functional>
+#include <mutex>
 
 namespace {
 
@@ -30,6 +33,57 @@ struct Schedule
 static Schedule g_sched;
 static uint64_t g_stats[4] = { 0, 0, 0, 0 };
 static thread_local bool t_in_worker = false;
+
+// Persistent worker threads (created on first use, never joined: the object is leaked on purpose so that no destructor
+// runs at interpreter exit).  run(n, f) executes f(0) .. f(n-1) concurrently, one call per worker thread, and returns
+// when all have finished.  The only synchronisation is at the start and at the end of run(): nothing orders the
+// sub-ranges of different workers with respect to each other, so ThreadSanitizer still sees every race between them.
+struct Workers
+{
+    std::mutex               m;
+    std::condition_variable  cv_go, cv_done;
+    std::vector<std::thread> th;
+    uint64_t                 gen = 0;
+    size_t                   active = 0, remaining = 0;
+    std::function<void (size_t)> job;
+    void loop (size_t w)
+    {
+        t_in_worker   = true;
+        uint64_t seen = 0;
+        std::unique_lock<std::mutex> lk (m);
+        for (;;)
+        {
+            cv_go.wait (lk, [&] { return gen != seen && w < active; });
+            seen   = gen;
+            auto j = job;
+            lk.unlock ();
+            j (w);
+            lk.lock ();
+            if (--remaining == 0) cv_done.notify_all ();
+        }
+    }
+    void run (size_t n, const std::function<void (size_t)>& f)
+    {
+        std::unique_lock<std::mutex> lk (m);
+        while (th.size () < n)
+        {
+            size_t w = th.size ();
+            th.emplace_back ([this, w] { loop (w); });
+        }
+        job       = f;
+        active    = n;
+        remaining = n;
+        ++gen;
+        cv_go.notify_all ();
+        cv_done.wait (lk, [&] { return remaining == 0; });
+        active = 0;
+    }
+};
+static Workers& worker_threads ()
+{
+    static Workers* w = new Workers;
+    return *w;
+}
 
 struct VpPool : public PyImath::WorkerPool
 {
@@ -70,22 +124,14 @@ struct VpPool : public PyImath::WorkerPool
         }
         else
         {
-            std::vector<std::thread> th;
-            for (size_t w = 0; w < nworkers; ++w)
-            {
-                th.emplace_back ([&, w] () {
-                    t_in_worker = true;
-                    for (size_t q = 0; q < n; ++q)
-                    {
-                        size_t k = s.order[q];
-                        if (s.tids[k] % nworkers != w) continue;
-                        task.execute (b[k], b[k + 1], (int) w);
-                    }
-                    t_in_worker = false;
-                });
-            }
-            for (auto& t : th)
-                t.join ();
+            worker_threads ().run (nworkers, [&] (size_t w) {
+                for (size_t q = 0; q < n; ++q)
+                {
+                    size_t k = s.order[q];
+                    if (s.tids[k] % nworkers != w) continue;
+                    task.execute (b[k], b[k + 1], (int) w);
+                }
+            });
             g_stats[2] += n;
             g_stats[3] += length;
         }
